@@ -105,6 +105,9 @@ func features() []feature {
 		{Name: "bound-method", Pre: "BM = [1].append\n", Body: "    x_bm = BM\n", Edits: []edit{{"refer to another method", "[1].append", "[1].extend"}, {"refer to the same method of another receiver", "[1].append", "[2].append"}}},
 		{Name: "flag-value", Pre: "FL = parse_flag(\"mode\", default=\"m0\")\n", Body: "    x_fl = FL\n", Edits: []edit{{"change flag default", "\"m0\"", "\"m1\""}}},
 		{Name: "varargs", Params: ", *args, **kwargs", Body: "    x_va = args\n", Edits: []edit{{"drop kwargs", ", *args, **kwargs", ", *args"}}},
+		{Name: "helper-kwonly-mandatory", Pre: "def hk(a, *, b, c=1):\n    return a + b + c\n", Body: "    x_hk = hk(1, b=2)\n", Edits: []edit{{"change keyword-only default", "b, c=1", "b, c=2"}}},
+		{Name: "helper-kwonly-after-varargs", Pre: "def hv(*rest, k):\n    return len(rest) + k\n", Body: "    x_hv = hv(1, 2, k=3)\n", Edits: []edit{{"change body of helper with mandatory keyword-only parameter", "len(rest) + k", "len(rest) - k"}}},
+		{Name: "helper-kwonly-optional", Pre: "def ho(a, *, c=1):\n    return a + c\n", Body: "    x_ho = ho(1)\n", Edits: []edit{{"change optional keyword-only default", "*, c=1", "*, c=2"}}},
 		{Name: "struct-attr-chain", Pre: "def mk2():\n    return {\"f\": lambda v: v + 1}\nST = mk2()\n", Body: "    x_st = ST[\"f\"](1)\n", Edits: []edit{{"change lambda stored in a dict", "v + 1", "v + 2"}}},
 	}
 }
